@@ -62,7 +62,7 @@ CLAIMED.update({
  "C19": ("All 34 operators and 6 constants of FloatOpsFactory<f32|f64> against an independent table name -> Rust primitive: exhaustive over a 40-value catalogue (all ordered pairs), random arguments across bit patterns and magnitudes, and through parsed expressions (infix, call, juxtaposed). Exhaustive over the catalogue, exploration beyond.",
          "Results bit-identical or within 2 ulp with identical NaN-ness, infinities and sign of zero.",
          "bounded-exhaustive enumeration + property-based testing against an independent reference table", "DESIGN.md §4 C19"),
- "C20": ("Send/Sync decided by the compiler (a binary that only compiles if the bounds hold); generated evaluation histories compared structurally with a pristine clone after every step; results independent of what the thread handled before; generated plans run concurrently from a barrier vs. sequentially, also in fresh child processes whose first library call is the racing parse. Type-level part decided for all uses; histories explored; schedules sampled (the harness does not own the scheduler).",
+ "C20": ("Send/Sync decided by the compiler (a binary that only compiles if the bounds hold); generated evaluation histories compared structurally with a pristine clone after every step; results independent of what the thread handled before and of which other instantiations (integer widths of the value type, same-named literal matchers) were used before in the process, judged by a history-free oracle; generated plans run concurrently from a barrier vs. sequentially, also in fresh child processes whose first library call is the racing parse. Type-level part decided for all uses; histories explored; schedules sampled (the harness does not own the scheduler).",
          "The schedule dimension is a stress sample, not an enumeration (std::sync::Once inside lazy_static cannot be instrumented without editing a dependency).",
          "compile-time trait assertion + property-based testing (stateful histories) + sampled concurrent-vs-sequential differential", "DESIGN.md §4 C20"),
 })
